@@ -9,6 +9,7 @@ early `return`) and a Lean back end that emits code in the conventions of the ha
     else wraps) — emitted in evaluation order (A-normal form), short-circuit `&&` / `||` keep their laziness when an operand has effects;
   * `/` and `%` become `divI128` / `remI128` (panic on zero divisor and MIN / -1) — except by a literal other than 0 and -1,
     where they are the pure `Int.tdiv` / `Int.tmod` (unsigned: `/`, `%`);
+  * `wrapping_rem` on i128 → `wrappingRemI128` (truncated remainder, `0` for MIN / -1, panic on a zero divisor only);
   * `checked_*` → `checkedI128`-style `Option`, `wrapping_*` → wrap, `as T` → wrap, `<<`/`>>` on unsigned → shifts with the
     shifted-out bits dropped, array indexing → `Option`-valued lookup with an index panic;
   * every function takes the build profile and returns `Outcome <ret>`.
@@ -1373,6 +1374,11 @@ class Emit:
             if t != "i128":
                 raise Unsupported(f"{m} on {t}")
             return ls, f"(checkedI128 ({xr} {opmap[m[8:]]} {xs[0]}))"
+        if m == "wrapping_rem" and len(xs) == 1:
+            if t != "i128":
+                raise Unsupported(f"{m} on {t}")
+            v = self.fresh()
+            return ls + [f"let {v} ← wrappingRemI128 ({xr}) ({xs[0]})"], v
         if m.startswith("wrapping_") and m[9:] in opmap:
             if signed(t):
                 return ls, f"(IntTy.{t}.wrap ({xr} {opmap[m[9:]]} {xs[0]}))"
